@@ -541,7 +541,7 @@ def _coef_tol(ref):
     """Rounding bound for the interpolation coefficients: collocation solves are backward stable, so the
     coefficient error is <= c * eps * cond * max|coef| (c generous)."""
     s = max(float(np.max(np.abs(ref.coef))), float(np.max(np.abs(ref.F))), 1e-100)
-    return 512 * EPS * max(ref.cond, 1.0) * s
+    return 4096 * EPS * max(ref.cond, 1.0) * s
 
 
 def _bd(face):
